@@ -116,7 +116,7 @@ def run_probes(ctx, w, probes):
         if ef in ("include", "include_sys", "inherit"):
             name = "t/inc_probe.c"
             txt = {"include": '#include %s\nint x;\n' % lpc_str(p), "include_sys": "#include <%s>\nint x;\n" % p.replace(">", "").replace("\n", ""),
-                   "inherit": "inherit %s;\nint x;\n" % lpc_str(p)}[ef]
+                   "inherit": "inherit %s;\nint x;\n" % "\n".join(lpc_str(p[j:j + 900]) for j in range(0, max(len(p), 1), 900))}[ef]   # adjacent literals: a source line holds 1024 bytes
             steps.append(["load", name, txt])        # small text: the pre_text path is fine here
         else:
             steps.append(["call", "t/agent", "run", arg(ef), arg(p), arg(q)])
